@@ -319,7 +319,16 @@ func (c *Ctx) rememberCodec(au *ssa.Function) {
 	r := c.R
 	gen := c.P.Func("ab/remember.GenerateToken")
 	gn := FuncName(gen)
-	nonce := c.P.ConstInt("remember", "nNonceSize")
+	// the nonce length: the package constant when it still has its name, else
+	// whatever the writer's layout implies (checked below to be a real nonce)
+	nonce := int64(-1)
+	if sp := c.P.ByPath[RepoPath+"/remember"]; sp != nil {
+		if nc, ok := sp.Members["nNonceSize"].(*ssa.NamedConst); ok {
+			if v, isC := ConstInt(nc.Value); isC {
+				nonce = v
+			}
+		}
+	}
 	// writer: raw := make([]byte, L); raw[S] = sep
 	var total Linear
 	okTotal := false
@@ -375,7 +384,10 @@ func (c *Ctx) rememberCodec(au *ssa.Function) {
 			constTail = false
 		}
 	}
-	r.Check(constTail && diff.K == nonce+1, "C07.codec", gn, "layout", c.P.Pos(gen.Pos()), sprintf("pid‖sep(%d)‖nonce[%d]: separator sits %d bytes before the end", sepByte, nonce, diff.K), sprintf("writer layout is not pid‖sep‖nonce[nNonceSize] (total %s, separator at %s)", total, sepAt))
+	if nonce < 0 {
+		nonce = diff.K - 1
+	}
+	r.Check(constTail && diff.K == nonce+1 && nonce >= 16, "C07.codec", gn, "layout", c.P.Pos(gen.Pos()), sprintf("pid‖sep(%d)‖nonce[%d]: separator sits %d bytes before the end", sepByte, nonce, diff.K), sprintf("writer layout is not pid‖sep‖nonce[nNonceSize] (total %s, separator at %s)", total, sepAt))
 	// the hash covers the whole raw token and the token is its URL encoding
 	// reader
 	an := FuncName(au)
